@@ -347,6 +347,13 @@ pub fn configs(prop: &str, thorough: bool) -> Vec<SimConfig> {
                 });
                 v.push(c);
             }
+            if prop == "C03" || prop == "C19" || prop == "C14" {
+                // a pool that keeps nothing idle (max_idle_per_host = 0, a legal corner): whoever waits for an
+                // attempt or for a released connection is still served
+                let mut c = full("n2-max-idle-0", 2, true);
+                c.max_idle_per_host = 0;
+                v.push(c);
+            }
             if prop == "C03" || prop == "C19" || prop == "C04" {
                 // mixed H1/H2 histories with completed exchanges (macro step) so that hand-backs during
                 // an in-flight HTTP/2 attempt, followed by its failure or cancellation, are within reach
